@@ -27,6 +27,7 @@ Definition dec_api_op (op : val) : api_op :=
           | (None, false) => OpClearType
           | _ => OpAppend false []
           end
+  | 11 => OpAppend false []   (* a WriteTo on a failing writer: whatever it returned, the message is what it was *)
   | _ => OpSetRetry (as_z (nth_val 2 op))
   end.
 (* a family member is the list of API operations that built it (a clone starts with its
